@@ -323,6 +323,7 @@ def run(ctx: Ctx):
 
     _offset_width_headroom(ctx, rel)
     _arpa_numeric_grammar(ctx)
+    _arpa_base_conversion(ctx)
     _kernel_returns_no_view_of_the_tables(ctx, rel)
 
     # ---- S6 unsigned numpy scalars ------------------------------------------------------------------------
@@ -447,32 +448,44 @@ def _offset_width_headroom(ctx: Ctx, rel: str):
     for n in own_nodes(build.node):
         if isinstance(n, ast.Assign) and isinstance(n.value, ast.Call) and call_name(n.value) == "max" and n.value.args \
                 and isinstance(n.value.args[0], ast.GeneratorExp):
-            elt = n.value.args[0].elt
+            ge = n.value.args[0]
+            elt = ge.elt
             lens_ = [c for c in ast.walk(elt) if isinstance(c, ast.Call) and call_name(c) == "len"]
-            if len(lens_) == 2:
-                bound = (n, elt, lens_)
+            if lens_ and len(ge.generators) == 1 and isinstance(ge.generators[0].target, ast.Name):
+                bound = (n, elt, lens_, ge.generators[0].target.id)
     if bound is None:
         raise AnalysisError("C06: the offset-width bound of _build_trie was not found")
-    n_assign, elt, lens_ = bound
-    # constant term of the bound: replace the two len() calls by symbols
+    n_assign, elt, lens_, gv = bound
+    # the bound as a polynomial over LEVEL[0] = len(level n) and LEVEL[-1] = len(level n - 1)
     nz = Normalizer(rename=lambda s_: s_)
     import copy as _copy
+    from sa.norm import const_of, patom
     e2 = _copy.deepcopy(elt)
+    undec = []
 
     class _R(ast.NodeTransformer):
-        def __init__(self):
-            self.k = 0
-
         def visit_Call(self, node):
+            if call_name(node) == "len" and len(node.args) == 1 and isinstance(node.args[0], ast.Subscript):
+                off = const_of(padd(nz.poly(node.args[0].slice), patom(gv), -1))
+                if off is not None and off in (0, -1):
+                    return ast.Name(id="LEVEL_n" if off == 0 else "LEVEL_nm1", ctx=ast.Load())
             if call_name(node) == "len":
-                self.k += 1
-                return ast.Name(id=f"LEVEL{self.k}", ctx=ast.Load())
+                undec.append(u(node))
             return self.generic_visit(node)
     e2 = _R().visit(e2)
-    from sa.norm import const_of
     pb = nz.poly(e2)
-    rest = padd(padd(pb, nz.poly(ast.Name(id="LEVEL1", ctx=ast.Load())), -1), nz.poly(ast.Name(id="LEVEL2", ctx=ast.Load())), -1)
-    c = const_of(rest)
+    if undec or any(len(k) > 1 or (k and k[0] not in ("LEVEL_n", "LEVEL_nm1")) for k in pb):
+        col.undecided(f"C06: the offset-width bound `{u(elt)}` is not linear in the two level sizes")
+        return
+    cn, cm = pb.get(("LEVEL_n",), 0), pb.get(("LEVEL_nm1",), 0)
+    c = pb.get((), 0)
+    if cn < 1 or cm < 1:
+        col.ob("G21", "S7", f"{rel}::{CLS}._build_trie::offset-width-covers-the-dummy-hop", False,
+               f"the width of `offsets` is chosen for `{u(elt)}`, which does not dominate len(level n) + len(level n-1): the hop "
+               f"from a childless node over the next level's dummy is that sum, so with many contexts and few continuations per "
+               f"context the back-fill wraps in the narrow type and later n-grams are attached to the wrong parents", rel,
+               n_assign.lineno, sample=dict(bound=u(elt)))
+        return
     # the dummy store: offsets[allocated] = len(<level>) + k
     dummy = None
     for n in own_nodes(build.node):
@@ -561,10 +574,65 @@ def _kernel_returns_no_view_of_the_tables(ctx: Ctx, rel: str):
            f"the edited numbers)", rel, bad[0][0].lineno if bad else kern.line, sample=[b[2] for b in bad])
 
 
+
+def _arpa_base_conversion(ctx: Ctx):
+    """S8: with to_base_e every number read from the file - the log-probability AND the back-off weight - is converted
+    (divided by log10(e)); converting one column and not the other yields a table that is neither base-10 nor natural."""
+    col, pkg = ctx.col, ctx.pkg
+    f = pkg.func("_parsing::parse_arpa_lm")
+    rel = f.module.relname
+    rd = ReachingDefs(f.node)
+    flag = [p.name for p in f.params if p.name == "to_base_e"]
+    if not flag:
+        raise AnalysisError("C06: parse_arpa_lm lost its to_base_e option")
+
+    def from_flag(e):
+        return "to_base_e" in rd.derives(e).params() or any(isinstance(x, ast.Name) and x.id == "to_base_e" for x in ast.walk(e))
+
+    def zero(e):
+        return (isinstance(e, ast.Constant) and e.value == 0) or (isinstance(e, ast.Call) and len(e.args) == 1 and not e.keywords
+                                                                  and isinstance(e.args[0], ast.Constant) and e.args[0].value == 0)
+
+    def converted(e, depth=0):
+        if depth > 8:
+            return False
+        if isinstance(e, ast.BinOp) and isinstance(e.op, ast.Div) and from_flag(e.right):
+            return True
+        if isinstance(e, ast.BinOp) and isinstance(e.op, ast.Mult) and (from_flag(e.right) or from_flag(e.left)):
+            return True
+        if zero(e):
+            return True
+        if isinstance(e, ast.Name):
+            ds = [d for d in rd.defs_of(e)]
+            return bool(ds) and all(d.kind == "assign" and d.value is not None and converted(d.value, depth + 1) for d in ds)
+        return False
+    stores = []
+    for n in own_nodes(f.node):
+        if isinstance(n, ast.Assign) and len(n.targets) == 1 and isinstance(n.targets[0], ast.Subscript) \
+                and isinstance(n.targets[0].value, ast.Name):
+            comps = list(n.value.elts) if isinstance(n.value, ast.Tuple) else [n.value]
+            if any(isinstance(x, ast.Call) for c in comps for x in ast.walk(c)) or len(comps) > 1:
+                # number stores: the count table stores plain ints parsed with int()
+                if all(isinstance(c, ast.Name) and not any(isinstance(d.value, ast.Call) and "ftype" in u(d.value) for d in rd.defs_of(c))
+                       for c in comps) and len(comps) == 1:
+                    continue
+                if any(isinstance(x, ast.Call) and call_name(x) == "int" for c in comps for x in ast.walk(c)):
+                    continue
+                stores.append((n, comps))
+    bad = [(n, c) for n, comps in stores for c in comps if not converted(c)]
+    col.ob("G13", "S8", f"{rel}::parse_arpa_lm::every-stored-number-is-base-converted", bool(stores) and not bad,
+           f"`{u(bad[0][0])[:90] if bad else ''}` stores `{u(bad[0][1]) if bad else ''}` without dividing by the to_base_e "
+           f"normaliser: with to_base_e=True that column stays in base 10 while the other is natural", rel,
+           bad[0][0].lineno if bad else f.line, sample=[u(n)[:90] for n, _ in stores])
+    col.floor("arpa_number_stores", len(stores), 2)
+
+
 def _mutants():
     from selftest.mutate import Mutant as M
     L = "_lm.py"
     return [
+        M("offset-bound-one-level", L, "max_potential_offset = max((len(prob_dicts[n]) + len(prob_dicts[n - 1]) for n in range(1, N)))", "max_potential_offset = max((len(prob_dicts[n]) + 1 for n in range(1, N)))", "offset-width-covers-the-dummy-hop"),
+        M("backoff-not-converted", "_parsing.py", "dict_[tokens] = (ftype(logp) / norm, logb / norm)", "dict_[tokens] = (ftype(logp) / norm, logb)", "every-stored-number-is-base-converted"),
         M("unigram-returns-table-view", "_lm.py", "return last_logps.expand(B, V).clone()", "return last_logps.expand(B, V)", "result-is-not-a-view-of-a-table"),
         M("arpa-unsigned-exponent-only", "_parsing.py", "ngram_entry_pattern = re.compile('^([-+]?(?:(?:\\\\d+\\\\.?\\\\d*|\\\\.\\\\d+)(?:[Ee][-+]?\\\\d+)?|inf))\\\\s+(.*)$')", "ngram_entry_pattern = re.compile('^(-?\\\\d+(?:\\\\.\\\\d+)?(?:[Ee]-?\\\\d+)?)\\\\s+(.*)$')", "both-numeric-columns-use-one-grammar"),
         M("offset-width-one-short", "_lm.py", "max_potential_offset = max((len(prob_dicts[n]) + len(prob_dicts[n - 1]) for n in range(1, N)))", "max_potential_offset = max((len(prob_dicts[n]) + len(prob_dicts[n - 1]) - 1 for n in range(1, N)))", "offset-width-covers-the-dummy-hop"),
